@@ -131,6 +131,10 @@ def run(ctx):
     r = ctx.sub_rng("gen")
     cases = [L.gen_case(r) for _ in range(ctx.n(1200, 40000))]
     broken = explore(ctx, rep, cases, "main")
+    if not ctx.quick:
+        grid = L.grid_cases()
+        rep.extra["systematic_grid_cases"] = len(grid)
+        broken = explore(ctx, rep, grid, "grid") or broken
     sigs = {"subcontext_teardown_order": L.sig_subcontext_teardown_order}
     unexplained = [f for f in rep.failures if not L.sig_subcontext_teardown_order(f)]
     if (broken or any(not o["ok"] for o in rep.obligations)) and not unexplained:
